@@ -1,4 +1,5 @@
 import RsslVerif.Model.Names
+import RsslVerif.Model.NamesEmit
 import RsslVerif.Gen.Reserved
 import RsslVerif.Driver.Util
 /-!
@@ -125,6 +126,219 @@ def reservedFor (t : String) : Option (List String) :=
   else if t == "m" then some RsslVerif.Gen.Reserved.msl
   else none
 
+/-! ## `C15.res <dx|vk|vkba|msl> <program>`: resources, cbuffers, methods, entry points and a pipeline
+
+    item := ns N item* end | st S member* [| method*] end | en E value* end | gl <s|c|g> NAME | rs KIND OPTS NAME
+          | cb NAME OPTS member* end | fn NAME PTYPES param* { stmt* } | ef <c|v|p> NAME param* { stmt* } | pl NAME F<k>[,F<j>] <d<k>|->
+-/
+namespace Res
+open RsslVerif.Model.NamesEmit
+
+structure RState where
+  nss : Array (Option Nat × String) := #[]
+  defs : Array Def := #[]
+  structNames : Array String := #[]
+  structNs : Array (Option Nat) := #[]
+  enumNames : Array String := #[]
+  enumNs : Array (Option Nat) := #[]
+  valueNames : Array (Nat × String) := #[]
+  globalNames : Array String := #[]
+  globalNs : Array (Option Nat) := #[]
+  funcNames : Array String := #[]
+  funcNs : Array (Option Nat) := #[]
+  methods : Array Nat := #[]
+  localNames : Array String := #[]
+  cbufNames : Array String := #[]
+  cbufNs : Array (Option Nat) := #[]
+  pipeline : Option (List Nat × Option Nat) := none
+
+def findNs (st : RState) (parent : Option Nat) (name : String) : Option Nat :=
+  (List.range st.nss.size).find? fun i => st.nss[i]! == (parent, name)
+
+def natAfter (c : Char) (s : String) : Option Nat :=
+  match s.toList with
+  | c' :: ds => if c' == c then (String.ofList ds).toNat? else none
+  | [] => none
+
+def pairAfter (c : Char) (s : String) : Option (Nat × Nat) :=
+  match s.toList with
+  | c' :: ds =>
+    if c' == c then
+      match (String.ofList ds).splitOn "." with
+      | [a, b] => match a.toNat?, b.toNat? with
+        | some x, some y => some (x, y)
+        | _, _ => none
+      | _ => none
+    else none
+  | [] => none
+
+/-- the `i`-th value of enum `e` in the numbering through all enums -/
+def valueOrd (st : RState) (e i : Nat) : Option Nat :=
+  let idx := (List.range st.valueNames.size).filter fun v => st.valueNames[v]!.1 == e
+  idx[i]?
+
+def parseRef (st : RState) (r : String) : Ref :=
+  match natAfter 'G' r, natAfter 'F' r, natAfter 'L' r, natAfter 'S' r, natAfter 'E' r with
+  | some k, _, _, _, _ => .glob k
+  | _, some k, _, _, _ => .func k
+  | _, _, some k, _, _ => .loc k
+  | _, _, _, some k, _ => .structTy k
+  | _, _, _, _, some k => .enumTy k
+  | _, _, _, _, _ =>
+    match pairAfter 'V' r, pairAfter 'D' r with
+    | some (e, i), _ => match valueOrd st e i with
+      | some v => .enumVal v
+      | none => .nothing
+    | _, some (c, i) => .cbMember c i
+    | _, _ => .nothing
+
+/-- options: a<n> array, b bindless, g<k> bind group, s<k> element struct -/
+partial def parseOpts (cs : List Char) (o : ResOpts) : Option ResOpts :=
+  match cs with
+  | [] => some o
+  | c :: r =>
+    let ds := r.takeWhile Char.isDigit
+    let rest := r.dropWhile Char.isDigit
+    let n := (String.ofList ds).toNat?
+    match c, n with
+    | 'a', some _ => parseOpts rest { o with array := true }
+    | 'b', none => parseOpts rest o
+    | 'g', some k => parseOpts rest { o with group := some k }
+    | 's', some k => parseOpts rest { o with elem := some k }
+    | _, _ => none
+
+def opts? (s : String) : Option ResOpts := if s == "-" then some {} else parseOpts s.toList {}
+
+/-- statements up to the closing `}` of the function; nested blocks stay in the flat token list -/
+partial def parseBody (st : RState) (depth : Nat) (acc : Array BTok) : List String → Option (RState × Array BTok × List String)
+  | "}" :: r => if depth == 0 then some (st, acc, r) else parseBody st (depth - 1) (acc.push .cl) r
+  | "{" :: r => parseBody st (depth + 1) (acc.push .op) r
+  | "lv" :: n :: r => parseBody { st with localNames := st.localNames.push n } depth (acc.push (.lv st.localNames.size)) r
+  | "use" :: u :: r => parseBody st depth (acc.push (.use (parseRef st u))) r
+  | _ => none
+
+def splitAtBar (xs : List String) : List String × List String :=
+  (xs.takeWhile (· ≠ "|"), (xs.dropWhile (· ≠ "|")).drop 1)
+
+partial def parseItems (st : RState) (cur : Option Nat) (top : Bool) : List String → Option (RState × List String)
+  | [] => if top then some (st, []) else none
+  | "end" :: r => if top then none else some (st, r)
+  | "ns" :: n :: r =>
+    let (st1, id) := match findNs st cur n with
+      | some i => (st, i)
+      | none => ({ st with nss := st.nss.push (cur, n) }, st.nss.size)
+    match parseItems st1 (some id) false r with
+    | some (st2, r2) => parseItems st2 cur top r2
+    | none => none
+  | "st" :: n :: r =>
+    let (ms, fs) := splitAtBar (takeToEnd r)
+    let ord := st.structNames.size
+    let f0 := st.funcNames.size
+    let fords := (List.range fs.length).map (· + f0)
+    let st1 := { st with
+      structNames := st.structNames.push n, structNs := st.structNs.push cur
+      funcNames := st.funcNames ++ fs.toArray, funcNs := st.funcNs ++ (fs.map fun _ => cur).toArray
+      methods := st.methods ++ fords.toArray
+      defs := st.defs.push ⟨cur, .struct ord ms fords⟩ }
+    parseItems st1 cur top (skipToEnd r)
+  | "en" :: n :: r =>
+    let vs := takeToEnd r
+    let ord := st.enumNames.size
+    let v0 := st.valueNames.size
+    let st1 := { st with
+      enumNames := st.enumNames.push n, enumNs := st.enumNs.push cur
+      valueNames := st.valueNames ++ (vs.map fun v => (ord, v)).toArray
+      defs := st.defs.push ⟨cur, .enum ord ((List.range vs.length).map (· + v0))⟩ }
+    parseItems st1 cur top (skipToEnd r)
+  | "gl" :: k :: n :: r =>
+    let ord := st.globalNames.size
+    parseItems { st with globalNames := st.globalNames.push n, globalNs := st.globalNs.push cur,
+                         defs := st.defs.push ⟨cur, .glob ord (k.toList.headD 's')⟩ } cur top r
+  | "rs" :: kind :: o :: n :: r =>
+    match opts? o with
+    | some ro =>
+      let ord := st.globalNames.size
+      parseItems { st with globalNames := st.globalNames.push n, globalNs := st.globalNs.push cur,
+                           defs := st.defs.push ⟨cur, .res ord kind ro⟩ } cur top r
+    | none => none
+  | "cb" :: n :: o :: r =>
+    match opts? o with
+    | some ro =>
+      let ord := st.cbufNames.size
+      parseItems { st with cbufNames := st.cbufNames.push n, cbufNs := st.cbufNs.push cur,
+                           defs := st.defs.push ⟨cur, .cbuf ord n ro.group (takeToEnd r)⟩ } cur top (skipToEnd r)
+    | none => none
+  | "fn" :: n :: pt :: r =>
+    let np := if pt == "-" then 0 else pt.length
+    let params := r.take np
+    match r.drop np with
+    | "{" :: body =>
+      let ord := st.funcNames.size
+      let l0 := st.localNames.size
+      let st1 := { st with funcNames := st.funcNames.push n, funcNs := st.funcNs.push cur,
+                           localNames := st.localNames ++ params.toArray }
+      match parseBody st1 0 #[] body with
+      | some (st2, toks, r2) =>
+        parseItems { st2 with defs := st2.defs.push ⟨cur, .func ord ((List.range np).map (· + l0)) toks.toList none⟩ } cur top r2
+      | none => none
+    | _ => none
+  | "ef" :: k :: n :: r =>
+    let np := if k == "v" then 2 else 1
+    let params := r.take np
+    match r.drop np with
+    | "{" :: body =>
+      let ord := st.funcNames.size
+      let l0 := st.localNames.size
+      let st1 := { st with funcNames := st.funcNames.push n, funcNs := st.funcNs.push cur,
+                           localNames := st.localNames ++ params.toArray }
+      match parseBody st1 0 #[] body with
+      | some (st2, toks, r2) =>
+        let d : Def := ⟨cur, .func ord ((List.range np).map (· + l0)) toks.toList (some (k.toList.headD 'c'))⟩
+        parseItems { st2 with defs := st2.defs.push d } cur top r2
+      | none => none
+    | _ => none
+  | "pl" :: _ :: fs :: d :: r =>
+    match sequenceOpt ((fs.splitOn ",").map (natAfter 'F')) with
+    | some es =>
+      let dg := if d == "-" then none else natAfter 'd' d
+      parseItems { st with pipeline := some (es, dg) } cur top r
+    | none => none
+  | _ => none
+
+def toProgram (st : RState) : Program :=
+  { nss := st.nss.toList, defs := st.defs.toList
+    structNames := st.structNames.toList, enumNames := st.enumNames.toList, valueNames := st.valueNames.toList
+    globalNames := st.globalNames.toList, funcNames := st.funcNames.toList, methods := st.methods.toList
+    localNames := st.localNames.toList
+    structNs := st.structNs.toList, enumNs := st.enumNs.toList, globalNs := st.globalNs.toList
+    funcNs := st.funcNs.toList, cbufNs := st.cbufNs.toList, cbufNames := st.cbufNames.toList
+    pipeline := st.pipeline }
+
+def parseProgram (s : String) : Option Program :=
+  let toks := (s.splitOn " ").filter (· ≠ "")
+  match parseItems {} none true toks with
+  | some (st, []) => some (toProgram st)
+  | _ => none
+
+def target? : String → Option Target
+  | "dx" => some .dx
+  | "vk" => some .vk
+  | "vkba" => some .vkba
+  | "msl" => some .msl
+  | _ => none
+
+def answer (t : Target) (p : Program) : String :=
+  if !supported p then "unsupported: vertex / pixel pipelines are outside the model" else
+  let reserved := if t.isMsl then RsslVerif.Gen.Reserved.msl else RsslVerif.Gen.Reserved.hlsl
+  match build reserved (namesInput t p) with
+  | .error e => e
+  | .ok names =>
+    " ".intercalate ([showNames names, "|refl"] ++
+      (reflection t names p).map (fun r => toString r.1 ++ ":" ++ r.2) ++
+      ["|entry"] ++ entryNames t names p ++ ["|out", " ".intercalate (emit t names p)])
+
+end Res
+
 def handle (op : String) (args : List String) : String :=
   match op, args with
   | "C15.names", [t, prog] =>
@@ -133,6 +347,10 @@ def handle (op : String) (args : List String) : String :=
       match build res inp with
       | .ok names => showNames names
       | .error e => e
+    | _, _ => "bad-request"
+  | "C15.res", [t, prog] =>
+    match Res.target? t, Res.parseProgram prog with
+    | some tg, some p => Res.answer tg p
     | _, _ => "bad-request"
   | _, _ => "unsupported-op"
 
